@@ -95,9 +95,12 @@ type Sim struct {
 	PendingEvidence       []rtypes.Address // scenario: evidence to inject into the next block
 	PendingCheck          []func() []byte  // scenario: transactions to CheckTx (never delivered)
 	ForceScenario         int              // template number + 1 to run at the next scenario slot (0 = free choice)
-	QuietAll              bool             // scenario: every proposal gets a quiet window around its applying height
-	VoteAll               bool             // scenario: every validator votes on the latest proposal when its window opens
-	Restarted             bool             // a restart happened since the last EndBlock
+	RestartAfterCommit    bool             // scenario: restart the primary after the next commit
+	PreBeginCheck         []func() []byte  // scenario: transactions to CheckTx before the next BeginBlock
+	scnA, scnB            *appdrv.Key
+	QuietAll              bool // scenario: every proposal gets a quiet window around its applying height
+	VoteAll               bool // scenario: every validator votes on the latest proposal when its window opens
+	Restarted             bool // a restart happened since the last EndBlock
 	EverRestarted         bool
 }
 
@@ -119,11 +122,12 @@ type Options struct {
 	WithEVM      bool
 	WithCheckTx  bool // interleave CheckTx on the primary
 	InvalidPct   int
-	PlanScenario int // template number + 1 that this history runs at its first applicable slot (0 = none)
+	WithRestarts bool // restarts of the primary are part of the schedule
+	PlanScenario int  // template number + 1 that this history runs at its first applicable slot (0 = none)
 }
 
 // NumScenarios is the number of scenario templates (scenarios.go).
-const NumScenarios = 9
+const NumScenarios = 11
 
 func (s *Sim) add(r *Rec) *Rec { s.Recs = append(s.Recs, r); return r }
 
